@@ -36,8 +36,8 @@ TraceInit == Init /\ l = 1 /\ TLCSet(1, 0)
 
 TReset ==
     /\ IsEvent("Reset")
-    /\ meta' = [n \in Names |-> NoRec] /\ seq' = 0 /\ dirs' = {} /\ tmps' = 0
-    /\ mounts' = <<>> /\ stale' = {} /\ up' = "up" /\ bsurv' = FALSE
+    /\ meta' = InitMeta /\ seq' = InitSeq /\ dirs' = InitDirs /\ tmps' = 0
+    /\ mounts' = InitMounts /\ stale' = {} /\ up' = "up" /\ bsurv' = FALSE
     /\ op' = IdleOp /\ nops' = 0 /\ nrs' = 0
     /\ last' = [act |-> "Init"]
 
